@@ -6,6 +6,7 @@ package main
 
 import (
 	"fmt"
+	"strconv"
 	"strings"
 )
 
@@ -328,7 +329,7 @@ func (sp *spec) oracle(o *Observed) string {
 				must = i + 1
 			}
 		}
-		if msg := checkPrefix(fmt.Sprintf("operation id %d (%q)", id, idString(id)), obs, exp, must); msg != "" {
+		if msg := checkPrefix(fmt.Sprintf("operation id %d (%s)", id, strconv.QuoteToASCII(clip(o.IDs[id]))), obs, exp, must); msg != "" {
 			return msg
 		}
 	}
@@ -393,4 +394,11 @@ func sortedKeysInt(m map[int]int) []int {
 	}
 	sortInts(out)
 	return out
+}
+
+func clip(s string) string {
+	if len(s) > 60 {
+		return s[:60] + "…"
+	}
+	return s
 }
